@@ -4,6 +4,7 @@ import SluProofs.Lemmas.Gemv
 import SluProofs.Lemmas.CxRat
 import SluProofs.Lemmas.Trsv
 import SluProofs.Lemmas.TrsvLayout
+import SluProofs.Lemmas.Cblas
 /-
 C14 — Sparse triangular solve / multiply kernels compute the documented operation.
 
@@ -391,3 +392,361 @@ example : ∃ A : CSC Rat, A.m ≠ 0 ∧ A.n ≠ 0 ∧ ∀ j, j < A.n → ∀ e 
     rw [he]; decide⟩
 
 end Slu.Kernels
+
+/-! ## The bundled reference BLAS (`/repo/CBLAS`, f2c) — level 1
+
+Theorems about the bit mirrors of Slu/Model/Cblas.lean (the objects family `cblas` runs at
+`Float/Float32/Cx _` and compares bit for bit with the C routines), in exact arithmetic at `Rat` /
+`Cx Rat`, for ALL `n` (negative included) and ALL increments the routine accepts.  The hand-unrolled
+clean-up/blocks structure (`n % 6`, `% 7`, `% 5`, `% 4`, `% 3`) is invisible (`unrolled_eq_loop`, which
+uses no algebraic law and therefore also holds at `Float`); the promoted-to-double sub-expressions of
+the single-precision files are the identity at `Rat`.  `StridedUpd d N inc y r val`: `r` has the size
+of `y`, its strided entries are `val i`, every other position is the one of `y`.
+`nrm2`: the theorems are about the `(scale, ssq)` pair the routine holds before its last statement
+`norm = scale * sqrt(ssq)`: `scale >= 0`, `ssq >= 1`, `scale^2 * ssq = Σ x_i^2` (and `scale >= |x_i|`);
+hence `norm = sqrt(Σ x_i^2)` for an exact square root — `sqrt` itself is trusted (libm, correctly
+rounded; `fparith` compares it with Lean's). -/
+namespace Slu.Cblas
+open Finset
+
+/-- **asum (real).** `dasum_`/`sasum_` in exact arithmetic: the sum of the absolute values of the
+strided elements, 0 when `n <= 0` or `incx <= 0`; the blocks of six are invisible. -/
+theorem asum_spec (n : Int) (x : Array Rat) (incx : Int) :
+    asumR n x incx = if n ≤ 0 ∨ incx ≤ 0 then 0 else ∑ i ∈ range n.toNat, |x.getD (spos n.toNat incx i) 0| := by
+  unfold asumR
+  by_cases h : n ≤ 0 ∨ incx ≤ 0
+  · simp [h]
+  · simp only [h, if_false]
+    by_cases h1 : incx = 1
+    · subst h1
+      simp only [ne_eq, not_true_eq_false, if_false]
+      rw [unrolled_eq_loop 6]
+      · simp only [up_rat, down_rat, f2cabs_rat, spos_one]
+        rw [loop_add_eq_sum]; simp
+      · intro t b; rfl
+    · simp only [ne_eq, h1, not_false_eq_true, if_true, up_rat, down_rat, f2cabs_rat]
+      rw [loop_add_eq_sum]; simp
+
+/-- **asum (complex).** `dzasum_` and `scasum_` (different association in floating point) both
+compute `Σ |re x_i| + |im x_i|`. -/
+theorem asumZ_spec (n : Int) (x : Array (Cx Rat)) (incx : Int) :
+    asumZ n x incx = if n ≤ 0 ∨ incx ≤ 0 then 0 else
+      ∑ i ∈ range n.toNat, (|(x.getD (spos n.toNat incx i) 0).re| + |(x.getD (spos n.toNat incx i) 0).im|) := by
+  unfold asumZ
+  by_cases h : n ≤ 0 ∨ incx ≤ 0
+  · simp [h]
+  · simp only [h, if_false, dcabs1, f2cabs_rat]
+    rw [loop_add_eq_sum]; simp
+
+theorem asumC_spec (n : Int) (x : Array (Cx Rat)) (incx : Int) :
+    asumC n x incx = if n ≤ 0 ∨ incx ≤ 0 then 0 else
+      ∑ i ∈ range n.toNat, (|(x.getD (spos n.toNat incx i) 0).re| + |(x.getD (spos n.toNat incx i) 0).im|) := by
+  unfold asumC
+  by_cases h : n ≤ 0 ∨ incx ≤ 0
+  · simp [h]
+  · simp only [h, if_false, f2cabs_rat, up_rat, down_rat, add_assoc]
+    rw [loop_add_eq_sum]; simp
+
+/-- **iamax (real).** -/
+theorem iamax_spec (n : Int) (x : Array Rat) (incx : Int) :
+    (n < 1 ∨ incx ≤ 0 → iamaxR n x incx = 0) ∧
+    (1 ≤ n → 0 < incx → ∃ r : Nat, iamaxR n x incx = ((r + 1 : Nat) : Int) ∧ r < n.toNat ∧
+      (∀ i, i < n.toNat → |x.getD (spos n.toNat incx i) 0| ≤ |x.getD (spos n.toNat incx r) 0|) ∧
+      (∀ i, i < r → |x.getD (spos n.toNat incx i) 0| < |x.getD (spos n.toNat incx r) 0|)) := by
+  constructor
+  · intro h; simp [iamaxR, h]
+  · intro hn hinc
+    have hc : ¬ (n < 1 ∨ incx ≤ 0) := by omega
+    unfold iamaxR
+    simp only [hc, if_false]
+    by_cases h1 : n = 1
+    · subst h1
+      refine ⟨0, by simp, by simp, ?_, ?_⟩
+      · intro i hi
+        have : i = 0 := by simpa using hi
+        subst this; exact le_refl _
+      · intro i hi; omega
+    · simp only [h1, if_false]
+      obtain ⟨r, e1, e2, _, e4, e5⟩ := amaxScan_spec (fun i => |x.getD (spos n.toNat incx i) 0|) (n.toNat - 1)
+      have hs : loop (n.toNat - 1) (fun (s : Int × Rat) k =>
+            if f2cabs (x.getD (spos n.toNat incx (k + 1)) 0) ≤ s.2 then s
+            else (((k + 2 : Nat) : Int), f2cabs (x.getD (spos n.toNat incx (k + 1)) 0))) ((1 : Int), f2cabs (x.getD 0 0))
+          = amaxScan (fun i => |x.getD (spos n.toNat incx i) 0|) (n.toNat - 1) := by
+        unfold amaxScan
+        simp only [f2cabs_rat, spos_zero n.toNat incx (le_of_lt hinc)]
+      rw [hs]
+      refine ⟨r, e1, by omega, ?_, e5⟩
+      intro i hi
+      exact e4 i (by omega)
+
+/-- **iamax (complex).** -/
+theorem iamaxC_spec (n : Int) (x : Array (Cx Rat)) (incx : Int) :
+    (n < 1 ∨ incx ≤ 0 → iamaxC n x incx = 0) ∧
+    (1 ≤ n → 0 < incx → ∃ r : Nat, iamaxC n x incx = ((r + 1 : Nat) : Int) ∧ r < n.toNat ∧
+      (∀ i, i < n.toNat → |(x.getD (spos n.toNat incx i) 0).re| + |(x.getD (spos n.toNat incx i) 0).im| ≤
+          |(x.getD (spos n.toNat incx r) 0).re| + |(x.getD (spos n.toNat incx r) 0).im|) ∧
+      (∀ i, i < r → |(x.getD (spos n.toNat incx i) 0).re| + |(x.getD (spos n.toNat incx i) 0).im| <
+          |(x.getD (spos n.toNat incx r) 0).re| + |(x.getD (spos n.toNat incx r) 0).im|)) := by
+  constructor
+  · intro h; simp [iamaxC, h]
+  · intro hn hinc
+    have hc : ¬ (n < 1 ∨ incx ≤ 0) := by omega
+    unfold iamaxC
+    simp only [hc, if_false]
+    by_cases h1 : n = 1
+    · subst h1
+      refine ⟨0, by simp, by simp, ?_, ?_⟩
+      · intro i hi
+        have : i = 0 := by simpa using hi
+        subst this; exact le_refl _
+      · intro i hi; omega
+    · simp only [h1, if_false]
+      obtain ⟨r, e1, e2, _, e4, e5⟩ := amaxScan_spec
+        (fun i => |(x.getD (spos n.toNat incx i) 0).re| + |(x.getD (spos n.toNat incx i) 0).im|) (n.toNat - 1)
+      have hs : loop (n.toNat - 1) (fun (s : Int × Rat) k =>
+            if (cabs1W (x.getD (spos n.toNat incx (k + 1)) 0) : Rat) ≤ Widen.up s.2 then s
+            else (((k + 2 : Nat) : Int), Widen.down (cabs1W (x.getD (spos n.toNat incx (k + 1)) 0) : Rat)))
+            ((1 : Int), Widen.down (cabs1W (x.getD 0 0) : Rat))
+          = amaxScan (fun i => |(x.getD (spos n.toNat incx i) 0).re| + |(x.getD (spos n.toNat incx i) 0).im|) (n.toNat - 1) := by
+        unfold amaxScan
+        simp only [cabs1W, up_rat, down_rat, f2cabs_rat, spos_zero n.toNat incx (le_of_lt hinc)]
+      rw [hs]
+      refine ⟨r, e1, by omega, ?_, e5⟩
+      intro i hi
+      exact e4 i (by omega)
+
+/-- **dot (real).** -/
+theorem dot_spec (n : Int) (x : Array Rat) (incx : Int) (y : Array Rat) (incy : Int) :
+    dotR n x incx y incy = if n ≤ 0 then 0 else
+      ∑ i ∈ range n.toNat, x.getD (spos n.toNat incx i) 0 * y.getD (spos n.toNat incy i) 0 := by
+  unfold dotR
+  by_cases h : n ≤ 0
+  · simp [h]
+  · simp only [h, if_false]
+    by_cases h1 : incx = 1 ∧ incy = 1
+    · obtain ⟨hx, hy⟩ := h1
+      subst hx; subst hy
+      simp only [and_self, if_true]
+      rw [unrolled_eq_loop 5]
+      · simp only [spos_one]
+        rw [loop_add_eq_sum]; simp
+      · intro t b; rfl
+    · simp only [h1, if_false]
+      rw [loop_add_eq_sum]; simp
+
+/-- **dotc.** `zdotc_`/`cdotc_`: `Σ conj(x_i) * y_i` in the field of Gaussian rationals. -/
+theorem dotc_spec (n : Int) (x : Array (Cx Rat)) (incx : Int) (y : Array (Cx Rat)) (incy : Int) :
+    dotcC n x incx y incy = if n ≤ 0 then 0 else
+      ∑ i ∈ range n.toNat, Conj.conj (x.getD (spos n.toNat incx i) 0) * y.getD (spos n.toNat incy i) 0 := by
+  unfold dotcC
+  by_cases h : n ≤ 0
+  · simp only [h, if_true]; rfl
+  · simp only [h, if_false]
+    have hstep : ∀ (t : Cx Rat) (i : Nat),
+        (⟨t.re + (cmulF (⟨(x.getD (spos n.toNat incx i) 0).re, -(x.getD (spos n.toNat incx i) 0).im⟩ : Cx Rat) (y.getD (spos n.toNat incy i) 0)).re,
+          t.im + (cmulF (⟨(x.getD (spos n.toNat incx i) 0).re, -(x.getD (spos n.toNat incx i) 0).im⟩ : Cx Rat) (y.getD (spos n.toNat incy i) 0)).im⟩ : Cx Rat)
+        = t + Conj.conj (x.getD (spos n.toNat incx i) 0) * y.getD (spos n.toNat incy i) 0 := by
+      intro t i
+      rw [cmulF_eq_mul]; rfl
+    simp only [hstep]
+    have h0 : (⟨0, 0⟩ : Cx Rat) = 0 := rfl
+    rw [h0, loop_add_eq_sum]; simp
+
+/-- **axpy (real).** for every `n > 0`, every `a` (the `a == 0` quick return included), any `incx`, any
+nonzero `incy`: `y_i := y_i + a*x_i` on the strided positions, everything else unchanged. -/
+theorem axpy_spec (n : Int) (a : Rat) (x : Array Rat) (incx : Int) (y : Array Rat) (incy : Int)
+    (hn : 0 < n) (hincy : incy ≠ 0) (hb : ∀ i, i < n.toNat → spos n.toNat incy i < y.size) :
+    StridedUpd 0 n.toNat incy y (axpyR n a x incx y incy)
+      (fun i => y.getD (spos n.toNat incy i) 0 + a * x.getD (spos n.toNat incx i) 0) := by
+  have key := updG_strided (0 : Rat) n.toNat incy hincy (fun i v => v + a * x.getD (spos n.toNat incx i) 0) y hb
+  unfold axpyR
+  have hn' : ¬ n ≤ 0 := by omega
+  simp only [hn', if_false]
+  by_cases ha : a = 0
+  · subst ha
+    have : IsZero.isZero (0 : Rat) = true := by rw [isZero_rat]; simp
+    simp only [this, if_true]
+    refine ⟨rfl, ?_, fun _ _ => rfl⟩
+    intro i hi; simp
+  · have : IsZero.isZero a = false := by rw [isZero_rat]; simp [ha]
+    simp only [this, Bool.false_eq_true, if_false]
+    by_cases h1 : incx = 1 ∧ incy = 1
+    · obtain ⟨hx, hy⟩ := h1
+      subst hx; subst hy
+      simp only [and_self, if_true]
+      rw [unrolled_eq_loop 4]
+      · simpa only [updG, spos_one] using key
+      · intro t b; rw [steps4]
+    · simp only [h1, if_false]
+      exact key
+
+theorem axpy_quick (n : Int) (a : Rat) (x : Array Rat) (incx : Int) (y : Array Rat) (incy : Int) (hn : n ≤ 0) :
+    axpyR n a x incx y incy = y := by simp [axpyR, hn]
+
+theorem axpyC_spec (n : Int) (a : Cx Rat) (x : Array (Cx Rat)) (incx : Int) (y : Array (Cx Rat)) (incy : Int)
+    (hn : 0 < n) (hincy : incy ≠ 0) (hb : ∀ i, i < n.toNat → spos n.toNat incy i < y.size) :
+    StridedUpd 0 n.toNat incy y (axpyC n a x incx y incy)
+      (fun i => y.getD (spos n.toNat incy i) 0 + a * x.getD (spos n.toNat incx i) 0) := by
+  have key := updG_strided (0 : Cx Rat) n.toNat incy hincy (fun i v => v + a * x.getD (spos n.toNat incx i) 0) y hb
+  unfold axpyC
+  have hn' : ¬ n ≤ 0 := by omega
+  simp only [hn', if_false, cabs1W_zero_iff]
+  by_cases ha : a = 0
+  · subst ha
+    simp only [decide_true, if_true]
+    refine ⟨rfl, ?_, fun _ _ => rfl⟩
+    intro i hi; simp
+  · simp only [ha, decide_false, Bool.false_eq_true, if_false, cmulF_eq_mul]
+    exact key
+
+/-- **scal (real).** -/
+theorem scal_spec (n : Int) (a : Rat) (x : Array Rat) (incx : Int)
+    (hn : 0 < n) (hinc : 0 < incx) (hb : ∀ i, i < n.toNat → spos n.toNat incx i < x.size) :
+    StridedUpd 0 n.toNat incx x (scalR n a x incx) (fun i => a * x.getD (spos n.toNat incx i) 0) := by
+  have key := updG_strided (0 : Rat) n.toNat incx (by omega) (fun _ v => a * v) x hb
+  unfold scalR
+  have hn' : ¬ (n ≤ 0 ∨ incx ≤ 0) := by omega
+  simp only [hn', if_false]
+  by_cases h1 : incx = 1
+  · subst h1
+    simp only [ne_eq, not_true_eq_false, if_false]
+    rw [unrolled_eq_loop 5]
+    · simpa only [updG, spos_one] using key
+    · intro t b; rw [steps5]
+  · simp only [ne_eq, h1, not_false_eq_true, if_true]
+    exact key
+
+theorem scal_quick (n : Int) (a : Rat) (x : Array Rat) (incx : Int) (h : n ≤ 0 ∨ incx ≤ 0) :
+    scalR n a x incx = x := by simp [scalR, h]
+
+theorem scalC_spec (n : Int) (a : Cx Rat) (x : Array (Cx Rat)) (incx : Int)
+    (hn : 0 < n) (hinc : 0 < incx) (hb : ∀ i, i < n.toNat → spos n.toNat incx i < x.size) :
+    StridedUpd 0 n.toNat incx x (scalC n a x incx) (fun i => a * x.getD (spos n.toNat incx i) 0) := by
+  have key := updG_strided (0 : Cx Rat) n.toNat incx (by omega) (fun _ v => a * v) x hb
+  unfold scalC
+  have hn' : ¬ (n ≤ 0 ∨ incx ≤ 0) := by omega
+  simp only [hn', if_false, cmulF_eq_mul]
+  exact key
+
+/-- **copy (real).** -/
+theorem copy_spec (n : Int) (x : Array Rat) (incx : Int) (y : Array Rat) (incy : Int)
+    (hn : 0 < n) (hincy : incy ≠ 0) (hb : ∀ i, i < n.toNat → spos n.toNat incy i < y.size) :
+    StridedUpd 0 n.toNat incy y (copyR n x incx y incy) (fun i => x.getD (spos n.toNat incx i) 0) := by
+  have key := updG_strided (0 : Rat) n.toNat incy hincy (fun i _ => x.getD (spos n.toNat incx i) 0) y hb
+  unfold copyR
+  have hn' : ¬ n ≤ 0 := by omega
+  simp only [hn', if_false]
+  by_cases h1 : incx = 1 ∧ incy = 1
+  · obtain ⟨hx, hy⟩ := h1
+    subst hx; subst hy
+    simp only [and_self, if_true]
+    rw [unrolled_eq_loop 7]
+    · simpa only [updG, spos_one] using key
+    · intro t b; rw [steps7]
+  · simp only [h1, if_false, copyG_eq_updG]
+    exact key
+
+/-- **copy / scal / axpy (complex).** -/
+theorem copyC_spec (n : Int) (x : Array (Cx Rat)) (incx : Int) (y : Array (Cx Rat)) (incy : Int)
+    (hn : 0 < n) (hincy : incy ≠ 0) (hb : ∀ i, i < n.toNat → spos n.toNat incy i < y.size) :
+    StridedUpd 0 n.toNat incy y (copyC n x incx y incy) (fun i => x.getD (spos n.toNat incx i) 0) := by
+  have key := updG_strided (0 : Cx Rat) n.toNat incy hincy (fun i _ => x.getD (spos n.toNat incx i) 0) y hb
+  unfold copyC
+  have hn' : ¬ n ≤ 0 := by omega
+  simp only [hn', if_false, copyG_eq_updG]
+  exact key
+
+/-- **swap (real).** nonzero increments, vectors in bounds: afterwards the strided elements of `x` are
+the old strided elements of `y` and vice versa; every other position of both arrays is unchanged. -/
+theorem swap_spec (n : Int) (x : Array Rat) (incx : Int) (y : Array Rat) (incy : Int)
+    (hn : 0 < n) (hx : incx ≠ 0) (hy : incy ≠ 0) (hbx : ∀ i, i < n.toNat → spos n.toNat incx i < x.size)
+    (hby : ∀ i, i < n.toNat → spos n.toNat incy i < y.size) :
+    StridedUpd 0 n.toNat incx x (swapR n x incx y incy).1 (fun i => y.getD (spos n.toNat incy i) 0) ∧
+    StridedUpd 0 n.toNat incy y (swapR n x incx y incy).2 (fun i => x.getD (spos n.toNat incx i) 0) := by
+  have kx := updG_strided (0 : Rat) n.toNat incx hx (fun i _ => y.getD (spos n.toNat incy i) 0) x hbx
+  have ky := updG_strided (0 : Rat) n.toNat incy hy (fun i _ => x.getD (spos n.toNat incx i) 0) y hby
+  have e := swapG_eq n.toNat x incx y incy hx hy hbx hby n.toNat (le_refl _)
+  unfold swapR
+  have hn' : ¬ n ≤ 0 := by omega
+  simp only [hn', if_false]
+  by_cases h1 : incx = 1 ∧ incy = 1
+  · obtain ⟨h1x, h1y⟩ := h1
+    subst h1x; subst h1y
+    simp only [and_self, if_true]
+    rw [unrolled_eq_loop 3]
+    · simp only [spos_one] at e kx ky
+      have : loop n.toNat swap1 (x, y) = _ := e
+      rw [this]
+      simp only [spos_one]
+      exact ⟨kx, ky⟩
+    · intro t b; rw [steps3]
+  · simp only [h1, if_false]
+    unfold swapG
+    rw [e]
+    exact ⟨kx, ky⟩
+
+theorem swapC_spec (n : Int) (x : Array (Cx Rat)) (incx : Int) (y : Array (Cx Rat)) (incy : Int)
+    (hn : 0 < n) (hx : incx ≠ 0) (hy : incy ≠ 0) (hbx : ∀ i, i < n.toNat → spos n.toNat incx i < x.size)
+    (hby : ∀ i, i < n.toNat → spos n.toNat incy i < y.size) :
+    StridedUpd 0 n.toNat incx x (swapC n x incx y incy).1 (fun i => y.getD (spos n.toNat incy i) 0) ∧
+    StridedUpd 0 n.toNat incy y (swapC n x incx y incy).2 (fun i => x.getD (spos n.toNat incx i) 0) := by
+  have kx := updG_strided (0 : Cx Rat) n.toNat incx hx (fun i _ => y.getD (spos n.toNat incy i) 0) x hbx
+  have ky := updG_strided (0 : Cx Rat) n.toNat incy hy (fun i _ => x.getD (spos n.toNat incx i) 0) y hby
+  have e := swapG_eq n.toNat x incx y incy hx hy hbx hby n.toNat (le_refl _)
+  unfold swapC
+  have hn' : ¬ n ≤ 0 := by omega
+  simp only [hn', if_false]
+  unfold swapG
+  rw [e]
+  exact ⟨kx, ky⟩
+
+/-- **nrm2 (real).** -/
+theorem nrm2_spec (N : Nat) (x : Array Rat) (incx : Int) :
+    0 ≤ (nrm2AccR N x incx).1 ∧ 1 ≤ (nrm2AccR N x incx).2 ∧
+    (nrm2AccR N x incx).1 ^ 2 * (nrm2AccR N x incx).2 = ∑ i ∈ range N, (x.getD (spos N incx i) 0) ^ 2 ∧
+    (∀ i, i < N → |x.getD (spos N incx i) 0| ≤ (nrm2AccR N x incx).1) :=
+  ssq_loop_spec (fun i => x.getD (spos N incx i) 0) N
+
+/-- **nrm2 (complex).** -/
+theorem nrm2C_spec (N : Nat) (x : Array (Cx Rat)) (incx : Int) :
+    0 ≤ (nrm2AccC N x incx).1 ∧ 1 ≤ (nrm2AccC N x incx).2 ∧
+    (nrm2AccC N x incx).1 ^ 2 * (nrm2AccC N x incx).2 =
+      ∑ i ∈ range N, ((x.getD (spos N incx i) 0).re ^ 2 + (x.getD (spos N incx i) 0).im ^ 2) :=
+  ssq2_loop_spec (fun i => (x.getD (spos N incx i) 0).re) (fun i => (x.getD (spos N incx i) 0).im) N
+
+/-! ### concrete instances: `n` not a multiple of the unrolling factor, negative increments -/
+
+/-- eight elements = clean-up loop of 2 + one block of 6 -/
+example : asumR (8 : Int) (#[1, -2, 3, -4, 5, -6, 7, -8] : Array Rat) 1 = 36 := by decide +kernel
+/-- `incx <= 0` and `n <= 0` quick returns -/
+example : asumR (3 : Int) (#[1, -2, 3] : Array Rat) (-1) = 0 := by decide +kernel
+/-- seven elements (clean-up 2 + block of 5), reversed `y` -/
+example : dotR (7 : Int) (#[1, 2, 3, 4, 5, 6, 7] : Array Rat) 1 (#[7, 6, 5, 4, 3, 2, 1] : Array Rat) (-1) = 140 := by
+  decide +kernel
+example : dotR (7 : Int) (#[1, 2, 3, 4, 5, 6, 7] : Array Rat) 1 (#[7, 6, 5, 4, 3, 2, 1] : Array Rat) 1 = 84 := by
+  decide +kernel
+/-- the FIRST of two elements of maximal magnitude wins -/
+example : iamaxR (5 : Int) (#[1, -3, 2, 3, 0] : Array Rat) 1 = 2 := by decide +kernel
+example : iamaxR (3 : Int) (#[1, 9, -3, 9, 3, 9] : Array Rat) 2 = 2 := by decide +kernel
+/-- `y := y + 2 x` with `incy = -2`: the gaps of `y` stay, element 0 of `x` meets the LAST strided slot -/
+example : axpyR (3 : Int) 2 (#[1, 10, 100] : Array Rat) 1 (#[0, 7, 0, 7, 0] : Array Rat) (-2) = #[200, 7, 20, 7, 2] := by
+  decide +kernel
+/-- the hypotheses of `axpy_spec` / `swap_spec` / `scal_spec` / `copy_spec` are satisfiable -/
+example := axpy_spec 3 2 (#[1, 10, 100] : Array Rat) 1 (#[0, 7, 0, 7, 0] : Array Rat) (-2)
+  (by decide) (by decide) (by decide)
+example : swapR (5 : Int) (#[1, 2, 3, 4, 5] : Array Rat) 1 (#[6, 7, 8, 9, 10] : Array Rat) (-1) =
+    (#[10, 9, 8, 7, 6], #[5, 4, 3, 2, 1]) := by decide +kernel
+example := swap_spec 5 (#[1, 2, 3, 4, 5] : Array Rat) 1 (#[6, 7, 8, 9, 10] : Array Rat) (-1)
+  (by decide) (by decide) (by decide) (by decide) (by decide)
+example := scal_spec 7 3 (#[1, 2, 3, 4, 5, 6, 7] : Array Rat) 1 (by decide) (by decide) (by decide)
+example := copy_spec 9 (#[1, 2, 3, 4, 5, 6, 7, 8, 9] : Array Rat) (-1) (#[0, 0, 0, 0, 0, 0, 0, 0, 0] : Array Rat) 1
+  (by decide) (by decide) (by decide)
+/-- `scale = 4`, `ssq = 25/16`: `4^2 * 25/16 = 3^2 + 4^2` -/
+example : nrm2AccR 2 (#[3, -4] : Array Rat) (-1) = (4, 25 / 16) := by decide +kernel
+/-- complex: `conj(1+2i)(3-i) + conj(-i)(2) = (1 - 7i) + 2i`, second vector reversed -/
+example : dotcC (2 : Int) (#[⟨1, 2⟩, ⟨0, -1⟩] : Array (Cx Rat)) 1 (#[⟨2, 0⟩, ⟨3, -1⟩] : Array (Cx Rat)) (-1) = ⟨1, -5⟩ := by
+  decide +kernel
+example : asumZ (2 : Int) (#[⟨1, -2⟩, ⟨-3, 4⟩] : Array (Cx Rat)) 1 = 10 ∧
+    asumC (2 : Int) (#[⟨1, -2⟩, ⟨-3, 4⟩] : Array (Cx Rat)) 1 = 10 := by decide +kernel
+
+end Slu.Cblas
